@@ -90,6 +90,22 @@ def api_immutability(rep, seed):
             rep.violation("%s raises %s" % (name, type(ex).__name__), {"what": repr(ex)[-200:]}); continue
         if not (numpy.array_equal(x.data, bx) and numpy.array_equal(y.data, by)):
             rep.violation("%s modifies its argument" % name, {})
+    # operands that are transposed views of another polynomial (Fortran-ordered slices): neither the view nor its parent may change
+    for name, f in (("det", algopy.det), ("logdet", lambda a: algopy.logdet(algopy.dot(a, a.T) + A0)), ("inv", lambda a: algopy.inv(a + A0)),
+                    ("lu", lambda a: algopy.lu(a)[1]), ("qr", lambda a: algopy.qr(a)[0]), ("solve", lambda a: algopy.solve(a + A0, a)),
+                    ("eigh", lambda a: algopy.eigh(a + a.T)[0]), ("cholesky", lambda a: algopy.cholesky(algopy.dot(a, a.T) + A0)),
+                    ("expm", lambda a: algopy.expm(a * 0.2)), ("dot", lambda a: algopy.dot(a, a)), ("svd", lambda a: algopy.svd(a)[1])):
+        B = fresh(); X = B.T
+        bb = B.data.copy()
+        rep.case(("immutability", name + " of a transposed view"), nontrivial=True); rep.replayed(1)
+        try:
+            r1 = f(X); r2 = f(X)
+        except Exception as ex:
+            rep.violation("%s of a transposed view raises %s" % (name, type(ex).__name__), {"what": repr(ex)[-200:]}); continue
+        if not numpy.array_equal(B.data, bb):
+            rep.violation("%s modifies its argument (transposed view)" % name, {})
+        elif not numpy.allclose(r1.data, r2.data, rtol=1e-12, atol=1e-13):
+            rep.violation("%s: second call on the same (transposed) object differs" % name, {})
     # pullback functions called directly: (ybar, x, y) and (zbar, x, y, z) are inputs, only `out` is written
     un = ["exp", "expm1", "log", "log1p", "sqrt", "sin", "cos", "tan", "square", "reciprocal", "negative", "absolute", "sign", "tanh", "arctan"]
     for name in un:
